@@ -52,12 +52,17 @@ Apply(s, e) ==
                                          !.sp = [k \in DOMAIN e.keep |-> g[e.i].sp[e.keep[k] + 1]]])>>
     [] e.act = "Split" ->
          (* e.ranges: witness frame ranges <<start, stop>> (0-based, half-open) found by the harness *)
-         LET parts == [p \in DOMAIN e.ranges |-> [g[e.i] EXCEPT !.pos = SubSeq(g[e.i].pos, e.ranges[p][1] + 1, e.ranges[p][2])]]
-             T == Len(g[e.i].pos)
+         LET T == Len(g[e.i].pos)
+             okr(p) == e.ranges[p][1] >= 0 /\ e.ranges[p][2] <= T /\ e.ranges[p][1] < e.ranges[p][2]
+             (* a part that is no frame range of the source (reported below) enters the store as observed, so that later steps are still judged *)
+             parts == [p \in DOMAIN e.ranges |-> IF okr(p) THEN [g[e.i] EXCEPT !.pos = SubSeq(g[e.i].pos, e.ranges[p][1] + 1, e.ranges[p][2])]
+                                                 ELSE [g[e.i] EXCEPT !.pos = e.objs[Len(g) + p].pos]]
          IN <<IF Len(e.ranges) # e.k THEN "split-part-count"
               ELSE IF \E p \in DOMAIN e.ranges : e.ranges[p][1] < 0 \/ e.ranges[p][2] > T \/ e.ranges[p][1] >= e.ranges[p][2] THEN "split-not-a-frame-range"
               ELSE IF \E p \in 1..(Len(e.ranges) - 1) : e.ranges[p][2] > e.ranges[p + 1][1] THEN "split-overlap-or-order"
               ELSE IF e.equal /\ \E p \in DOMAIN e.ranges : e.ranges[p][2] - e.ranges[p][1] # e.ranges[1][2] - e.ranges[1][1] THEN "split-not-equal-length"
+              ELSE IF ~e.equal /\ (e.ranges[1][1] # 0 \/ (\E p \in 1..(Len(e.ranges) - 1) : e.ranges[p][2] # e.ranges[p + 1][1])
+                                    \/ e.ranges[Len(e.ranges)][2] \notin {T - 1, T}) THEN "split-parts-do-not-tile-the-source"
               ELSE "ok", g \o parts>>
     [] e.act = "Extend" ->
          <<"ok", [g EXCEPT ![e.i].pos = g[e.i].pos \o g[e.j].pos]>>
